@@ -7,6 +7,8 @@ import math
 import random
 import struct
 
+from contracts.common import rechecked
+
 _cache = {}
 
 
@@ -98,6 +100,7 @@ def run_int(fn, w, a, b):
     return r
 
 
+@rechecked
 def check_int(fn, w, a, b):
     """None if the contract holds on the real code for this input, else a description."""
     exp = ref_int(fn, w, a, b)
@@ -126,6 +129,7 @@ def run_cmpi(pred, w, a, b):
     return r
 
 
+@rechecked
 def check_cmpi(pred, w, a, b):
     exp = ref_cmpi(pred, w, a, b)
     try:
@@ -137,6 +141,7 @@ def check_cmpi(pred, w, a, b):
     return None
 
 
+@rechecked
 def check_indexcast(wi, wo, x):
     from xdsl.dialects import arith
     from xdsl.dialects.builtin import IntegerType
@@ -229,6 +234,7 @@ def ref_float(fn, x, y):
     raise KeyError(fn)
 
 
+@rechecked
 def check_float(fn, ty, x, y):
     from xdsl.dialects import arith
     from xdsl.dialects.builtin import f32, f64
@@ -247,6 +253,7 @@ def check_float(fn, ty, x, y):
     return None
 
 
+@rechecked
 def check_cmpf(pred, x, y):
     from xdsl.dialects import arith
     from xdsl.dialects.builtin import f64
